@@ -205,12 +205,39 @@ impl Config {
         Version::try_from(self.proto as usize).expect("proto 0..5")
     }
 
+    /// the flag the mutator objects are created with: the generator's own flag, or (order bit 16)
+    /// the opposite one - `MutatorKind::create(flag)` and `with_unsafe_mutations` are independent
+    /// knobs of the public API
+    pub fn mutator_flag(&self) -> bool {
+        self.unsafe_mut ^ (self.order & 16 != 0)
+    }
+
+    /// `Generator::new(v)`, or (construction styles 3 and 4) `Generator::default()` with the
+    /// protocol written through the public `state` field
+    fn construct(&self) -> Generator {
+        match self.order & 7 {
+            3 => {
+                let mut g = Generator::default();
+                g.state.version = self.version();
+                g
+            }
+            4 => {
+                let mut g = Generator::default();
+                g.state = Default::default();
+                g.state.version = self.version();
+                g
+            }
+            _ => Generator::new(self.version()),
+        }
+    }
+
     pub fn build(&self) -> Generator {
-        let mk = |m: &Mk| m.kind().create(self.unsafe_mut);
-        let mut g = match self.order {
-            1 => {
+        let mk = |m: &Mk| m.kind().create(self.mutator_flag());
+        let mut g = match self.order & 7 {
+            1 | 4 => {
                 // flags first, single-item setters, range through the two separate methods
-                let mut g = Generator::new(self.version())
+                let mut g = self
+                    .construct()
                     .with_buffer_opcodes(self.buf)
                     .with_ext_opcodes(self.ext)
                     .with_unsafe_mutations(self.unsafe_mut)
@@ -225,7 +252,7 @@ impl Config {
             }
             2 => {
                 // only what differs from the defaults is set at all
-                let mut g = Generator::new(self.version());
+                let mut g = self.construct();
                 if (self.min, self.max) != (60, 300) {
                     g = g.with_opcode_range(self.min, self.max);
                 }
@@ -250,7 +277,7 @@ impl Config {
                 g
             }
             _ => {
-                let mut g = Generator::new(self.version()).with_opcode_range(self.min, self.max);
+                let mut g = self.construct().with_opcode_range(self.min, self.max);
                 if let Entropy::Seed(s) = self.entropy {
                     g = g.with_seed(s);
                 }
@@ -496,7 +523,19 @@ pub fn n_threads() -> usize {
 }
 
 /// run `f(i, &mut acc)` for i in 0..n on all cores; accumulators merged by `merge`.
-pub fn par_run<A, F, M>(n: usize, make: impl Fn() -> A + Sync, f: F, mut merge: M) -> A
+pub fn par_run<A, F, M>(n: usize, make: impl Fn() -> A + Sync, f: F, merge: M) -> A
+where
+    A: Send,
+    F: Fn(usize, &mut A) + Sync,
+    M: FnMut(&mut A, A),
+{
+    par_run_stack(0, n, make, f, merge)
+}
+
+/// `par_run` on worker threads with `stack_bytes` of stack (0 = the 2 MiB default). Used for
+/// workloads whose nesting depth goes beyond what any property bounds (recursive drop of a
+/// 40 000-deep tuple chain needs more than 2 MiB): an overflow there would kill the monitor.
+pub fn par_run_stack<A, F, M>(stack_bytes: usize, n: usize, make: impl Fn() -> A + Sync, f: F, mut merge: M) -> A
 where
     A: Send,
     F: Fn(usize, &mut A) + Sync,
@@ -507,7 +546,11 @@ where
     let results: Mutex<Vec<A>> = Mutex::new(Vec::new());
     std::thread::scope(|s| {
         for _ in 0..threads {
-            s.spawn(|| {
+            let mut b = std::thread::Builder::new();
+            if stack_bytes > 0 {
+                b = b.stack_size(stack_bytes);
+            }
+            let _ = b.spawn_scoped(s, || {
                 let mut acc = make();
                 loop {
                     let i = next.fetch_add(1, Ordering::Relaxed);
@@ -517,7 +560,8 @@ where
                     f(i, &mut acc);
                 }
                 results.lock().unwrap().push(acc);
-            });
+            })
+            .expect("spawn worker thread");
         }
     });
     let mut all = results.into_inner().unwrap();
